@@ -708,9 +708,16 @@ func GenSession(prop string, seed uint64, thorough bool) *Scenario {
 		if len(cl.Raw) == 0 {
 			r := ReentSpec{Event: "connection", Call: g.picks("close-discard", "close", "sleep", "close-discard"), Sess: cl.Name, Nth: 1}
 			if r.Call == "sleep" {
+				// (the handshake response is out only when the listener has returned: it has to stay well inside the
+				// heartbeat budget, or it becomes a legitimate cause of ping timeouts)
 				r.Ms = g.pick(5, 20, 50)
+				for r.Ms > 1 && r.Ms+6*cl.LatencyMs+cl.PollGapMs >= pt/3 {
+					r.Ms /= 2
+				}
 			}
-			sc.Reent = append(sc.Reent, r)
+			if r.Call != "sleep" || r.Ms+6*cl.LatencyMs+cl.PollGapMs < pt/3 {
+				sc.Reent = append(sc.Reent, r)
+			}
 		}
 	}
 	// a WebSocket peer that goes silent and stops reading: the server's writer goroutine stalls on the full window in
